@@ -374,7 +374,9 @@ def r20_3(ctx: Ctx, R: Resolver):
                 used_ = [norm(c_.func.value) for c_ in calls_in(sm.node) if call_name(c_) == "add" and c_.args and norm(c_.args[0]) == fn_]
                 used_ = used_[0] if used_ else "used_files"
                 t1_, p1_ = ctext("'top_AA' in %s[%s.name]" % (recv, mol_))
-                want = sorted([(t1_, not p1_), ctext("%s not in %s and %s.name in %s" % (fn_, used_, mol_, recv))])
+                want = sorted([(t1_, not p1_), ctext("%s not in %s" % (fn_, used_)), ctext("%s.name in %s" % (mol_, recv))])
+                from ..cfg import conjuncts as _cj20
+                g_ = sorted(x_ for t_, p_ in guards_of(st, pms) for x_ in _cj20(_xsd20(sm.node, t_, aliases_only=True), p_))
                 has_used = any(call_name(c_) == "add" and c_.args and norm(c_.args[0]) == fn_ for c_ in calls_in(sm.node))
                 if g_ == want or (has_used and lp_):
                     ctx.ob("R20.3", sm, st, g_ == want,
@@ -387,6 +389,16 @@ def r20_3(ctx: Ctx, R: Resolver):
                 okc_ = any(t.startswith("'coor_AA' in ") and not pol for t, pol in cguards_of(st, pms, split=True)) \
                     and not any(isinstance(a_, ast.Try) and st in a_.body for a_ in ancestors(st, pms))
                 direct_trial = any(isinstance(a_, ast.Try) for a_ in ancestors(st, pms))
+                # the same thing without an else-branch: every handler of the trial leaves the iteration, the store follows
+                par_ = pms.get(id(st))
+                for fld_ in ("body", "orelse"):
+                    blk_ = getattr(par_, fld_, None)
+                    if isinstance(blk_, list) and any(x_ is st for x_ in blk_):
+                        i_ = [j_ for j_, x_ in enumerate(blk_) if x_ is st][0]
+                        if i_ > 0 and isinstance(blk_[i_ - 1], ast.Try) and not blk_[i_ - 1].orelse and not blk_[i_ - 1].finalbody \
+                                and any("from_files" in norm(x_) for x_ in blk_[i_ - 1].body) \
+                                and all(h_.body and isinstance(h_.body[-1], (ast.Continue, ast.Raise)) for h_ in blk_[i_ - 1].handlers):
+                            direct_trial = True
                 if okc_ or direct_trial:
                     ctx.ob("R20.3", sm, st, okc_,
                            "the end coordinates of a species are the first candidate that loads with its end topology (stored in the "
